@@ -360,6 +360,11 @@ impl PrivateBatchProver {
 ///   replaces their nullifiers with hashes of fresh random preimages). Without
 ///   this, replaying the same valid leaf proof twice passes per-proof
 ///   verification and only fails inside the recursive proving run,
+/// - the amounts paid to any one exit account by non-dummy proofs must sum to
+///   less than 2^32, mirroring the circuit's 32-bit range check on each grouped
+///   exit sum (dummy slots are masked to zero in-circuit and contribute
+///   nothing). Without this, e.g. two valid leaves paying 2^31 each to the same
+///   account pass every check above and only fail inside the proving run,
 /// - at least one proof must be non-dummy: an all-dummy batch settles nothing,
 ///   so proving it only burns the proving window. The intentional all-dummy
 ///   padding template is built on the circuit-build path, which fills the
@@ -371,7 +376,8 @@ impl PrivateBatchProver {
 /// this only improves failure latency and error quality.
 fn ensure_leaf_batch_compatible(proofs: &[ProofWithPublicInputs<F, C, D>]) -> Result<()> {
     use crate::private_batch::circuit::constants::{
-        ASSET_ID_START, BLOCK_HASH_START, NULLIFIER_START, VOLUME_FEE_BPS_START,
+        ASSET_ID_START, BLOCK_HASH_START, EXIT_1_START, EXIT_2_START, NULLIFIER_START,
+        OUTPUT_AMOUNT_1_START, OUTPUT_AMOUNT_2_START, VOLUME_FEE_BPS_START,
     };
     use std::collections::HashMap;
 
@@ -380,6 +386,8 @@ fn ensure_leaf_batch_compatible(proofs: &[ProofWithPublicInputs<F, C, D>]) -> Re
         volume_fee_bps: u64,
         block_hash: [u64; 4],
         nullifier: [u64; 4],
+        /// The two (exit account, output amount) pairs of this leaf.
+        exits: [([u64; 4], u64); 2],
     }
     // PI lengths were validated by the caller.
     let metas: Vec<LeafMeta> = proofs
@@ -392,6 +400,18 @@ fn ensure_leaf_batch_compatible(proofs: &[ProofWithPublicInputs<F, C, D>]) -> Re
             }),
             nullifier: core::array::from_fn(|i| {
                 proof.public_inputs[NULLIFIER_START + i].to_canonical_u64()
+            }),
+            exits: [
+                (EXIT_1_START, OUTPUT_AMOUNT_1_START),
+                (EXIT_2_START, OUTPUT_AMOUNT_2_START),
+            ]
+            .map(|(exit_start, amount_index)| {
+                (
+                    core::array::from_fn(|i| {
+                        proof.public_inputs[exit_start + i].to_canonical_u64()
+                    }),
+                    proof.public_inputs[amount_index].to_canonical_u64(),
+                )
             }),
         })
         .collect();
@@ -412,6 +432,7 @@ fn ensure_leaf_batch_compatible(proofs: &[ProofWithPublicInputs<F, C, D>]) -> Re
 
     let mut reference: Option<(usize, &LeafMeta)> = None;
     let mut seen_nullifiers: HashMap<[u64; 4], usize> = HashMap::new();
+    let mut exit_sums: HashMap<[u64; 4], u64> = HashMap::new();
     for (idx, meta) in metas.iter().enumerate() {
         if meta.block_hash == [0u64; 4] {
             continue; // dummy sentinel: exempt from block/fee/nullifier consistency
@@ -448,6 +469,20 @@ fn ensure_leaf_batch_compatible(proofs: &[ProofWithPublicInputs<F, C, D>]) -> Re
                 idx,
                 prev_idx
             );
+        }
+        for (exit_account, amount) in meta.exits {
+            let sum = exit_sums.entry(exit_account).or_insert(0u64);
+            *sum = sum.saturating_add(amount);
+            if *sum > u64::from(u32::MAX) {
+                bail!(
+                    "leaf proof {} brings the total paid to one exit account to {}, which \
+                     exceeds the 32-bit range the private-batch circuit enforces on each \
+                     grouped exit sum; this batch would only fail after the expensive \
+                     recursive proving run",
+                    idx,
+                    sum
+                );
+            }
         }
     }
     if reference.is_none() {
